@@ -60,3 +60,6 @@ M("routing-tag-trailing-junk-accepted", "C04", CORE,
 M("stray-more-sets-more-mask", "C04", XQ,
   "    /* See if this is a response from a service that we are waiting for. */",
   "    if (reply && 0 == strncmp(reply, \"MORE \", 5)) cli->more_mask |= 1u;\n    /* See if this is a response from a service that we are waiting for. */")
+
+REVERT("revert-D19-wide-ids", "C08", "a client id outside the int range was truncated")
+REVERT("revert-D20-full-table", "C17", "a service added by a reload to a full service table")
